@@ -22,8 +22,8 @@
    model (the model's store is sequentially consistent; for read-only threads
    every weaker model gives the same observations); that distinct policies own
    disjoint locations (property C14's theorem — hypothesis W here).
-   The vptr_map virtual_ptr-constructor routes are kept apart by
-   [CallPath.C16_excluded] (unordered_map::operator[]; see the check's report). *)
+   No route is excluded: [CallPath.C16_excluded] is constantly false since the
+   vptr_map virtual_ptr constructor uses find() (it used unordered_map::operator[]). *)
 
 From Coq Require Import String List Bool NArith Arith.
 From Y2 Require Import Model.CallPath Proofs.CallPathProofs Proofs.CallPathGenProofs.
@@ -74,7 +74,7 @@ Theorem C16_readonly :
 Proof. exact readonly_lemma. Qed.
 
 Theorem C16_routes_complete :
-  routes_complete GenCallPath.routes && excluded_present GenCallPath.routes = true.
+  routes_complete GenCallPath.routes = true.
 Proof. exact routes_complete_lemma. Qed.
 
 Theorem C16_dispatch_jump :
@@ -316,10 +316,15 @@ Module Examples.
     /\ Nat.leb 500 (length (checked_routes GenCallPath.routes)) = true.
   Proof. split; vm_compute; reflexivity. Qed.
 
-  (* what the excluded routes are held back for (documentation; deliberately not
-     an obligation: a `fix:` that replaces operator[] by find must not fail) *)
-  Example excluded_count :
-    length (filter C16_excluded GenCallPath.routes) = 12.
+  (* nothing is excluded, and the vptr_map constructor routes (which used
+     unordered_map::operator[] before the library fix) are present and pass *)
+  Example nothing_excluded :
+    length (filter C16_excluded GenCallPath.routes) = 0.
   Proof. vm_compute. reflexivity. Qed.
+
+  Example vptr_map_ctor_routes_checked :
+    length (filter is_vptr_map_ctor GenCallPath.routes) = 12
+    /\ forallb route_read_only (filter is_vptr_map_ctor GenCallPath.routes) = true.
+  Proof. split; vm_compute; reflexivity. Qed.
 
 End Examples.
